@@ -293,4 +293,55 @@ example : (∀ t ∈ gtags (GExpr.and (.tag (.word "linux")) (.tag (.rel 18))),
       tagOkY ctxLinux t = tagOkY { ctxLinux with goarch := "arm64" } t) ∧
     tagOkY ctxLinux (.word "amd64") ≠ tagOkY { ctxLinux with goarch := "arm64" } (.word "amd64") := by decide
 
+/-! ### the property as one statement: name and header together -/
+
+/-- the constraint header of a file as buildOk reads it: an optional `//go:build` expression, which takes
+    precedence (as for the toolchain), and the recognised `// +build` lines -/
+structure Header where
+  go : Option GExpr
+  plus : List PlusLine
+
+/-- buildOk on a parsed header -/
+def headerOkY (c : Ctx) (h : Header) : Bool :=
+  match h.go with
+  | some e => e.evalY c
+  | none => linesOkY c h.plus
+/-- the toolchain's shouldBuild on the same header -/
+def headerOkGo (c : Ctx) (h : Header) : Bool :=
+  match h.go with
+  | some e => Spec.evalG c e
+  | none => Spec.linesOk c h.plus
+
+/-- importSrc: a file takes part when skipFile lets its name through and buildOk accepts its header -/
+def takesPartY (k : Known) (c : Ctx) (isTest : Bool) (elems : List String) (skipTest : Bool) (h : Header) : Bool :=
+  !skipElemsY k c isTest elems skipTest && headerOkY c h
+/-- the toolchain: the name is selected and the header is satisfied -/
+def takesPartGo (c : Ctx) (isTest : Bool) (elems : List String) (skipTest : Bool) (h : Header) : Bool :=
+  Spec.selectedElems c isTest elems skipTest && headerOkGo c h
+
+theorem header_correct (c : Ctx) (h : Header) : headerOkY c h = headerOkGo c h := by
+  unfold headerOkY headerOkGo
+  cases h.go with
+  | some e => exact gobuild_expr_correct c e
+  | none => exact plusbuild_lines_correct c h.plus
+
+/-- **C17 in one statement**: with the tables regenerated from the current source, a file takes part
+    exactly when the toolchain would select it — for every context (GOOS, GOARCH, release, tags, cgo,
+    compiler), every file name, both settings of `skipTest`, and every header (any `//go:build`
+    expression, any number of `// +build` lines, the former taking precedence). -/
+theorem file_takes_part_correct (c : Ctx) (isTest : Bool) (elems : List String) (skipTest : Bool) (h : Header) :
+    takesPartY Generated.C17.known c isTest elems skipTest h = takesPartGo c isTest elems skipTest h := by
+  unfold takesPartY takesPartGo
+  rw [name_rule_generated, header_correct, Bool.not_not]
+
+/-- non-vacuity: `zfile_linux_amd64.go` with `//go:build linux && go1.18` takes part on linux/amd64/go1.22,
+    the same name does not on windows, and a `//go:build` line overrides contradicting `+build` lines -/
+example :
+    takesPartY Generated.C17.known ctxLinux false ["zfile", "linux", "amd64"] true
+      ⟨some (.and (.tag (.word "linux")) (.tag (.rel 18))), []⟩ = true ∧
+    takesPartY Generated.C17.known { ctxLinux with goos := "windows" } false ["zfile", "linux", "amd64"] true
+      ⟨none, []⟩ = false ∧
+    takesPartY Generated.C17.known ctxLinux false ["f"] true
+      ⟨some (.tag (.word "linux")), [[[⟨false, .word "windows"⟩]]]⟩ = true := by decide
+
 end YaegiVerif.Props.C17
